@@ -3,11 +3,16 @@ number encoding of rocq/Text/TokEnum.v, the 63-bit checksum mirrored from that f
 parallel implementation runs."""
 from __future__ import annotations
 
+import contextlib
 import itertools
 import multiprocessing as mp
 import os
 import re
+import resource  # noqa: F401 - imported HERE so that harness.common._unlimit_stack (a preexec_fn, run in a forked child of a threaded process) finds it in sys.modules
+import signal
 import subprocess
+import threading
+import time
 from concurrent.futures import ThreadPoolExecutor
 from typing import Any, Iterable, Sequence
 
@@ -80,6 +85,14 @@ def impl_results(data: Any, bits: int, ncalls: int) -> list[int]:
     A foreign exception (anything that is not the tokenizer's TokenSyntaxError) is encoded as [4, ...] and never
     matches the model."""
     Tokenizer, TokenSyntaxError = _tk()
+    try:
+        with time_limit():
+            return _impl_results(Tokenizer, TokenSyntaxError, data, bits, ncalls)
+    except ImplTimeout:
+        return list(HANG)
+
+
+def _impl_results(Tokenizer, TokenSyntaxError, data: Any, bits: int, ncalls: int) -> list[int]:
     tk = Tokenizer(data, None, **_OPTS[bits])
     out: list[int] = []
     for _ in range(ncalls):
@@ -139,6 +152,117 @@ def decode_results(xs: list[int]) -> list:
     return out
 
 
+
+# ------------------------------------------------------------------------------------------------ robustness of the check itself
+class Inconclusive(RuntimeError):
+    """The checking machine failed (fork / thread / memory / a coqc process killed or timed out), not the source under test.
+    Propagates out of run(): the harness prints INTERNAL-ERROR (exit 2, "nothing is claimed") - never a VIOLATION."""
+
+
+class ImplTimeout(BaseException):
+    """A call into the implementation did not return within its time limit (BaseException: `except Exception` in the code under
+    test must not swallow it)."""
+
+
+IMPL_LIMIT_S = 8.0
+
+
+_LIMIT_ACTIVE = [False]
+
+
+@contextlib.contextmanager
+def time_limit(seconds: float = IMPL_LIMIT_S):
+    """Bound one call into the implementation (a fault could make it loop). Only in a main thread (signals); elsewhere, and inside
+    another time_limit, unbounded (the outer limit applies)."""
+    if _LIMIT_ACTIVE[0] or threading.current_thread() is not threading.main_thread():
+        yield
+        return
+
+    def on_alarm(signum, frame):
+        raise ImplTimeout()
+    old = signal.signal(signal.SIGALRM, on_alarm)
+    _LIMIT_ACTIVE[0] = True
+    signal.setitimer(signal.ITIMER_REAL, seconds)
+    try:
+        yield
+    finally:
+        signal.setitimer(signal.ITIMER_REAL, 0)
+        _LIMIT_ACTIVE[0] = False
+        signal.signal(signal.SIGALRM, old)
+
+
+def bounded(on_timeout):
+    """Decorator: the call is bounded by time_limit(); when the limit strikes the function returns `on_timeout` (a value that
+    never matches the model / is reported as a failing input)."""
+    import functools
+
+    def deco(fn):
+        @functools.wraps(fn)
+        def wrapper(*a, **k):
+            try:
+                with time_limit():
+                    return fn(*a, **k)
+            except ImplTimeout:
+                return on_timeout
+        return wrapper
+    return deco
+
+
+HANG = [4, 9, *map(ord, 'no result within the time limit')]
+
+
+def _run_coqc(cmd: Sequence[str], cwd, timeout: int, what: str) -> subprocess.CompletedProcess:
+    """coqc with retries on failures of the machine: fork/exec errors (EAGAIN, ENOMEM), an exception in the preexec_fn, the
+    process killed by a signal (OOM killer).  A timeout or a persistent failure is Inconclusive, never a failed obligation."""
+    last = ''
+    for attempt in range(3):
+        try:
+            r = subprocess.run(list(cmd), capture_output=True, text=True, timeout=timeout, cwd=cwd, preexec_fn=_unlimit_stack)
+        except subprocess.TimeoutExpired:
+            raise Inconclusive(f'{what}: coqc did not finish within {timeout} s (overloaded machine?)') from None
+        except (OSError, subprocess.SubprocessError, MemoryError) as e:
+            last = repr(e)
+            time.sleep(2 * (attempt + 1))
+            continue
+        if r.returncode < 0:
+            last = f'coqc killed by signal {-r.returncode}'
+            time.sleep(2 * (attempt + 1))
+            continue
+        return r
+    raise Inconclusive(f'{what}: {last} (3 attempts)')
+
+
+def harden(ck: Ck) -> None:
+    """Route ck.coq_scratch (used by coq_eval / instance_obligations / theorems) through _run_coqc."""
+    if getattr(ck, '_hardened', False):
+        return
+    ck._hardened = True         # type: ignore[attr-defined]
+    lock = threading.Lock()
+
+    def coq_scratch(body: str, name: str = 'scratch', timeout: int = 600) -> tuple[int, str]:
+        with lock:              # the directory name is derived from the number of entries: two threads must not count at the same time
+            d = ck.scratch / f'coq_{name}_{len(os.listdir(ck.scratch))}'
+            d.mkdir()
+        f = d / f'{name}.v'
+        f.write_text(body)
+        r = _run_coqc(['coqc', '-Q', str(ROCQ), 'SV', '-Q', str(d), 'Scratch', str(f)], d, timeout, f'coqc {name}')
+        return r.returncode, r.stdout + r.stderr
+    ck.coq_scratch = coq_scratch        # type: ignore[method-assign]
+
+
+def guarded(pid: str, body, ck: Ck) -> None:
+    """run(ck) of a check: infrastructure failures end as a clearly marked INCONCLUSIVE + the harness's INTERNAL-ERROR."""
+    harden(ck)
+    try:
+        body(ck)
+    except Inconclusive as e:
+        print(f'INCONCLUSIVE property={pid}: {e} - the checking machine failed, not the source under test; no VIOLATION is claimed, re-run the check')
+        raise
+    except (BlockingIOError, MemoryError) as e:
+        print(f'INCONCLUSIVE property={pid}: {e!r} - resource exhaustion on the checking machine; no VIOLATION is claimed, re-run the check')
+        raise
+
+
 # ------------------------------------------------------------------------------------------------ parallel coqc
 def coq_eval_many(ck: Ck, jobs: Sequence[Sequence[str]], name: str, imports: Sequence[str] = IMPORTS, preamble: str = PRE,
                   timeout: int = 800, workers: int = 12) -> list[list[str] | None]:
@@ -154,12 +278,7 @@ def coq_eval_many(ck: Ck, jobs: Sequence[Sequence[str]], name: str, imports: Seq
             body += f'Eval vm_compute in ({e}).\n'
         f = d / f'{name}.v'
         f.write_text(body)
-        try:
-            r = subprocess.run(['coqc', '-Q', str(ROCQ), 'SV', '-Q', str(d), 'Scratch', str(f)], capture_output=True, text=True,
-                               timeout=timeout, cwd=d, preexec_fn=_unlimit_stack)
-        except subprocess.TimeoutExpired:
-            ck.notes.append(f'coq_eval_many {name}[{k}]: timeout')
-            return None
+        r = _run_coqc(['coqc', '-Q', str(ROCQ), 'SV', '-Q', str(d), 'Scratch', str(f)], d, timeout, f'coq_eval_many {name}[{k}]')
         if r.returncode != 0:
             ck.notes.append(f'coq_eval_many {name}[{k}] failed: {(r.stdout + r.stderr)[-800:]}')
             return None
@@ -169,8 +288,14 @@ def coq_eval_many(ck: Ck, jobs: Sequence[Sequence[str]], name: str, imports: Seq
             return None
         return vals
 
-    with ThreadPoolExecutor(max_workers=workers) as ex:
-        return list(ex.map(one, range(len(jobs))))
+    try:
+        with ThreadPoolExecutor(max_workers=workers) as ex:
+            return list(ex.map(one, range(len(jobs))))
+    except RuntimeError as e:            # "can't start new thread": do it one after the other
+        if 'thread' not in str(e):
+            raise
+        ck.notes.append(f'coq_eval_many {name}: {e}; evaluated sequentially')
+        return [one(k) for k in range(len(jobs))]
 
 
 def parse_int63(v: str) -> int:
@@ -179,13 +304,35 @@ def parse_int63(v: str) -> int:
     return int(v, 16) if v.startswith('0x') else int(v)
 
 
+POOL_TIMEOUT_S = 1500
+POOL_NOTES: list[str] = []
+
+
 def pool_map(fn, items: Sequence, workers: int = 14, chunksize: int = 1) -> list:
-    """Deterministic parallel map over forked workers (results in input order)."""
+    """Deterministic parallel map over forked workers (results in input order).  The result does not depend on the pool: if the
+    pool cannot be created (fork: EAGAIN / ENOMEM), a worker dies or the map does not finish in time (a forked child of a
+    threaded process can inherit a held lock), the items are computed in this process instead."""
     if len(items) <= 1:
         return [fn(x) for x in items]
-    ctx = mp.get_context('fork')
-    with ctx.Pool(min(workers, len(items))) as p:
-        return p.map(fn, items, chunksize)
+    try:
+        ctx = mp.get_context('fork')
+        pool = ctx.Pool(min(workers, len(items)))
+    except (OSError, MemoryError, RuntimeError) as e:
+        POOL_NOTES.append(f'pool_map: no pool ({e!r}); computed sequentially')
+        return [fn(x) for x in items]
+    try:
+        res = pool.map_async(fn, items, chunksize).get(POOL_TIMEOUT_S)
+        pool.close()
+        pool.join()
+        return res
+    except mp.TimeoutError:
+        pool.terminate()
+        POOL_NOTES.append(f'pool_map: no result after {POOL_TIMEOUT_S} s; computed sequentially')
+        return [fn(x) for x in items]
+    except (OSError, MemoryError, EOFError, BrokenPipeError) as e:
+        pool.terminate()
+        POOL_NOTES.append(f'pool_map: pool failed ({e!r}); computed sequentially')
+        return [fn(x) for x in items]
 
 
 def coq_chars(cs: Iterable[int]) -> str:
